@@ -7,6 +7,7 @@ import (
 	"fmt"
 	"io"
 	"log"
+	"strings"
 	"sync"
 	"time"
 
@@ -352,6 +353,22 @@ func c09Storm(ctx *core.Ctx, dotu bool, callers, ncalls int, delays bool) core.R
 	var wg sync.WaitGroup
 	var mu sync.Mutex
 	per := ncalls / callers
+	// before the storm the client's own path helpers are used as an application would: an attach and walks along
+	// paths of more than 16 elements (several Twalk rounds each); whatever they leave in the client's caches of
+	// request slots and message buffers is what the concurrent callers then work with
+	if root, err := s.c.Attach(nil, s.user, "x"); err == nil {
+		s.c.Root = root
+		for _, depth := range []int{3, 17, 20, 40} {
+			names := make([]string, depth)
+			for i := range names {
+				names[i] = fmt.Sprintf("e%d", i)
+			}
+			if f, err := s.c.FWalk(strings.Join(names, "/")); err == nil {
+				_ = s.c.Clunk(f)
+				res.Count("path_helper_walks_before_the_storm", 1)
+			}
+		}
+	}
 	for g := 0; g < callers; g++ {
 		wg.Add(1)
 		go func(g int) {
